@@ -20,6 +20,15 @@ func main() {
 		usage()
 	}
 	switch os.Args[1] {
+	case "annotate-params":
+		// govc annotate-params <moddir> <pattern...>: prints "<file>:<func key>: //@ params ..." for every contract
+		if len(os.Args) < 4 {
+			usage()
+		}
+		if err := vc.PrintParamClauses(os.Args[2], os.Args[3:]); err != nil {
+			fmt.Fprintln(os.Stderr, err)
+			os.Exit(2)
+		}
 	case "check":
 		fs := flag.NewFlagSet("check", flag.ExitOnError)
 		tier := fs.String("tier", envOr("VERIF_TIER", "quick"), "quick|thorough")
